@@ -156,5 +156,30 @@ def opsQuat (name : String) : Option Op :=
   | "q.from_arc_fb" => some fun _ => do
       let u ← rv3; let v ← rv3; let f ← rv3; return okQ (Quat.fromArc u v (some f))
   | _ => none
+
+/-- model-only side channel: which branch the model takes (feeds the evidence histogram) -/
+def opsBranch (name : String) : Option Op :=
+  match name with
+  | "br.m3.to_quat" => some fun _ => do
+      let m ← rm3
+      return okS [match m.toQuatBranch with | .trace => 0 | .xx => 1 | .yy => 2 | .zz => 3]
+  | "br.q.to_quat" => some fun _ => do
+      let q ← rq
+      return okS [match q.toM3.toQuatBranch with | .trace => 0 | .xx => 1 | .yy => 2 | .zz => 3]
+  | "br.q.to_euler" => some fun _ => do
+      let q ← rq
+      return okS [match q.toEulerBranch with | .pos => 0 | .neg => 1 | .main => 2]
+  | "br.q.between_vectors" => some fun _ => do
+      let u ← rv3; let v ← rv3
+      return okS [match Quat.betweenVectorsBranch u v with | .same => 0 | .opposite => 1 | .general => 2]
+  | "br.q.from_arc" => some fun _ => do
+      let u ← rv3; let v ← rv3
+      return okS [match Quat.fromArcBranch u v with | .same => 0 | .opposite => 1 | .general => 2]
+  | "br.q.slerp" => some fun _ => do
+      let p ← rq; let q ← rq; let _t ← rx
+      let d := Quat.dot p q
+      let d := if d < 0 then -d else d
+      return okS [if (Lits.thr : Rat) < d then 0 else 1]
+  | _ => none
 end
 end Cg.Rt
